@@ -151,7 +151,7 @@ def term_value(root, tree, term):
 def run(case):
     tree, prog, outmode, variant = case["tree"], case["prog"], case["outmode"], case.get("variant", 0)
     o = {"id": case["id"], "tree": tree, "prog": prog, "outmode": outmode, "err": "", "grad": [], "flat_ok": True, "unflat_ok": True,
-         "commute_ok": True, "jvp": "skip", "jvp_expected": 0, "struct_ok": True, "type_ok": True}
+         "commute_ok": True, "jvp": "skip", "jvp_expected": 0, "struct_ok": True, "type_ok": True, "val_ok": True}
     try:
         value = build_root(tree, variant)
         sizes = leaf_sizes(tree, [])
@@ -177,7 +177,18 @@ def run(case):
         if tree["k"] == "leaf":
             o["err"] = "skip:leaf root"
             return o
+        def scalars(v):
+            if isinstance(v, dict):
+                return [q for k in sorted(v) for q in scalars(v[k])]
+            if isinstance(v, (tuple, list)):
+                return [q for e in v for q in scalars(e)]
+            return [float(q) for q in onp.ravel(onp.asarray(v, dtype=float))]
+        plain_val = f(build_root(tree, variant))
         if outmode == "scalar":
+            with warnings.catch_warnings():
+                warnings.simplefilter("ignore")
+                vjp0, val = make_vjp(typed)(value)
+            o["val_ok"] = bool(not isbox(val) and scalars(val) == scalars(plain_val))
             if not prog:
                 with warnings.catch_warnings():
                     warnings.simplefilter("ignore")
@@ -186,6 +197,7 @@ def run(case):
                 g = grad(typed)(value)
         else:
             vjp, val = make_vjp(typed)(value)
+            o["val_ok"] = bool(type(val) is type(plain_val) and scalars(val) == scalars(plain_val))
             if outmode == "dict":
                 cot = {"t%d" % i: 1.0 for i in range(len(prog))}
             else:
